@@ -14,15 +14,15 @@
   list is exactly one complete RESP value, and `wellFormedOne_on_the_wire` ties that to bytes through
   the encoder/decoder of C17.
 
-  The property as stated is FALSE for the real code, and the model reproduces it:
-    D11  a negative `numkeys` panics inside `command.Parse` (no `recover` in the server: the process
-         dies)                      → excluded by `InModel`; classified exactly by
-                                      `crash_only_numkeys_negative`; witness `negative_numkeys_crashes`
+  "No input crashes the process" now HOLDS in the model: `no_request_crashes` (D11, a negative
+  `numkeys` panicking inside `command.Parse`, has been repaired; witness `negative_numkeys_is_refused`:
+  the request gets exactly one error reply).
+  The rest of the property as stated is FALSE for the real code, and the model reproduces it:
     D12  `EXEC` announces `*n` and stops writing at the first queued command that fails
                                     → `exec_reply_count_partial` (exact count of missing values),
                                       witness `exec_reply_short`
   Inside MULTI: `in_multi_one_reply` (everything but EXEC) and `exec_reply_count_partial`.
-  `InModel` also excludes what the model makes no claim about: requests outside its numeric domain
+  `InModel` excludes only what the model makes no claim about: requests outside its numeric domain
   (`ood`, e.g. float formatting beyond 15 digits, LRANGE bounds near 2^63) and — vacuous for the
   generated tables — constructs the extractor did not recognise. `Covered` is every command: all 97
   `Cmd` constructors are handled by `every_command_writes_one_value`.
@@ -49,29 +49,28 @@ theorem every_command_writes_one_value :
 
 /-! ### one reply per request, outside MULTI -/
 
-/-- **One reply per request.** Outside a transaction block, for every request that does not hit D11
-and is inside the model's domain, the handler chain writes exactly one complete value. -/
+/-- **One reply per request.** Outside a transaction block, for every request inside the model's
+domain (`InModel`: numeric domain, known constructs — nothing about panics has to be assumed), the
+handler chain writes exactly one complete value. -/
 theorem one_reply_partial :
     ∀ (st : ConnState) (db : DB) (now : Int) (req : List Bytes), st.inMulti = false →
       InModel (handleX st db now req []) → wellFormedOne (handle st db now req).2.2 :=
   handle_one_reply
 
-/-- The handler chain itself never panics; only `command.Parse` can … -/
+/-- The handler chain itself never panics; only `command.Parse` could … -/
 theorem crash_only_in_parser :
     ∀ (st : ConnState) (db : DB) (now : Int) (req : List Bytes),
       (handleX st db now req []).panic = true → parse req = .panic :=
   handleX_panic
 
-/-- … and only on `ZINTER`, `ZINTERSTORE`, `ZUNION`, `ZUNIONSTORE` (any letter case) with a negative
-integer among the arguments (D11). Every other request leaves the process running. -/
-theorem crash_only_numkeys_negative :
+/-- … and it never does: **no input crashes the process.** Every connection state (inside or
+outside MULTI, any queue), every table state, every request. The one panic path the model has in
+the chain itself (`handleSingle` on an empty queue: method call on a nil command) is unreachable
+from `handleX`, which pushes the parsed command first. -/
+theorem no_request_crashes :
     ∀ (st : ConnState) (db : DB) (now : Int) (req : List Bytes),
-      (handleX st db now req []).panic = true →
-      ∃ a0 rest name, req = a0 :: rest ∧ lowerName a0 = some name ∧
-        name ∈ numkeysCommands.map asciiBytes ∧ NegLit rest := by
-  intro st db now req h
-  have hp := handleX_panic st db now req h
-  exact parse_panic req (by rw [hp]; rfl)
+      (handleX st db now req []).panic = false :=
+  handleX_noPanic
 
 /-- Malformed invocations: one error token, nothing else changes (also inside MULTI). -/
 theorem parse_error_one_reply :
@@ -168,12 +167,16 @@ section Examples
 
 open Redka.Wire.Witness
 
-/-- D11: `ZINTER -1 k1` kills the process -/
-theorem negative_numkeys_crashes :
-    (handleX {} db0 2000 [b "ZINTER", b "-1", b "k1"] []).panic = true := by decide +kernel
+/-- D11 repaired: `ZINTER -1 k1` gets exactly one reply, the wrong-number-of-arguments error; the
+process, the connection state and the tables are untouched -/
+theorem negative_numkeys_is_refused :
+    handle {} db0 2000 [b "ZINTER", b "-1", b "k1"]
+      = ({}, db0, [.err (b "ERR wrong number of arguments ()")]) ∧
+    wellFormedOne (handle {} db0 2000 [b "ZINTER", b "-1", b "k1"]).2.2 := by decide +kernel
 
-/-- … and that request satisfies the conclusion of `crash_only_numkeys_negative` -/
-example : lowerName (b "ZINTER") = some (b "zinter") ∧ atoi (b "-1") = some (-1) := by decide +kernel
+/-- … also inside MULTI: nothing is queued -/
+example : handle { inMulti := true } db0 2000 [b "ZUNIONSTORE", b "d", b "-1", b "k1"]
+    = ({ inMulti := true }, db0, [.err (b "ERR wrong number of arguments ()")]) := by decide +kernel
 
 /-- D12: `MULTI; INCR k2 (a list); INCR k1; EXEC` announces two values and writes one -/
 theorem exec_reply_short :
